@@ -285,8 +285,26 @@ static JV gen_json_doc(uint64_t seed, int size)
 	ref::SplitMix g(seed ^ 0x6a09e667f3bcc908ULL);
 	int budget = 2 + size % 200;
 	JV v;
-	v.t = g.below(2) ? 6 : 5; // a document is an object or an array
-	int n = 1 + (int)g.below(6);
+	// a document is an object, an array or (RFC 8259) any single value: the falsy ones -- false, 0, "", null -- are still
+	// valid JSON and must come back as themselves
+	int top = (int)g.below(22);
+	if (top < 10) {
+		switch (top) {
+		case 0: v.t = 1; v.i = 0; break;                       // false
+		case 1: v.t = 1; v.i = 1; break;                       // true
+		case 2: v.t = 2; v.i = 0; break;                       // 0
+		case 3: v.t = 2; v.i = -1 - (long long)g.below(2147483647); break;
+		case 4: v.t = 2; v.i = g.below(2) ? 2147483647LL : (long long)g.below(2147483647); break;
+		case 5: v.t = 3; v.i = (long long)g.below(1 << 21) - (1 << 20); v.d = v.i / 8.0; break;
+		case 6: v.t = 3; v.i = 0; v.d = 0.0; break;             // 0.0
+		case 7: v.t = 4; break;                                // ""
+		case 8: v.t = 4; v.s = gen_jstring(g); if (v.s.empty()) v.s = "0"; break;
+		default: v.t = 0; break;                               // null
+		}
+		return v;
+	}
+	v.t = g.below(2) ? 6 : 5;
+	int n = (int)g.below(7); // also [] and {}
 	for (int i = 0; i < n && budget > 0; i++) {
 		if (v.t == 5)
 			v.a.push_back(gen_jv(g, 3, budget));
@@ -1410,10 +1428,20 @@ static void record_stats(const Spec& s, int lanes, const Outcome& out)
 		st.cls(std::string("refserver.response.") + ((s.flags & F_CHUNKED) ? "chunked" : "length"));
 	if (out.ka_retry)
 		st.cls("raw.keepalive_closed_by_server_resent");
-	if (s.reqjson)
+	auto jtop = [](const JV& j) -> std::string {
+		if (j.t >= 5)
+			return j.a.empty() && j.o.empty() ? "empty_container" : "container";
+		bool falsy = j.t == 0 || (j.t == 1 && !j.i) || (j.t == 2 && !j.i) || (j.t == 3 && j.d == 0) || (j.t == 4 && j.s.empty());
+		return falsy ? "scalar_falsy" : "scalar_truthy";
+	};
+	if (s.reqjson) {
 		st.cls("json.request");
-	if (s.rmode == RM_JSON)
+		st.cls("json.request.top." + jtop(s.rj));
+	}
+	if (s.rmode == RM_JSON) {
 		st.cls("json.response");
+		st.cls("json.response.top." + jtop(s.pj));
+	}
 	if (s.rmode == RM_FILE)
 		st.cls(s.file_ext == "bin" ? "file.ext.bin" : s.want_mime != "text/plain" || s.file_ext == "txt" ? "file.ext.builtin" : "file.ext.never_seen_before");
 	if (s.rmode == RM_FILE)
